@@ -10,7 +10,8 @@ pub struct OrdForm {
 
 pub fn max_rank(l: L) -> u64 {
     match l {
-        L::Es | L::Pt => 1999,
+        L::Es => 1999,
+        L::Pt => 999_999,
         _ => 1_000_000,
     }
 }
@@ -244,7 +245,11 @@ fn es_ord(n: u64, v: Var, out: &mut Vec<OrdForm>) {
     }
 }
 fn pt_ord(n: u64, _v: Var, out: &mut Vec<OrdForm>) {
-    let words = positional(n, &PT_OU, &PT_OT, &PT_OH, None);
+    // from 2000 on the thousands are counted with an ordinal multiplier: "segundo milésimo" (2000.º),
+    // "vigésimo quinto milésimo" (25 000.º), "centésimo milésimo" (100 000.º)
+    let k = n / 1000;
+    let mut words: Vec<String> = if k >= 2 { positional(k, &PT_OU, &PT_OT, &PT_OH, None) } else { vec![] };
+    words.extend(positional(n % 1000 + if k >= 1 { 1000 } else { 0 }, &PT_OU, &PT_OT, &PT_OH, None));
     inflect_oa(&words, out);
 }
 
